@@ -119,13 +119,15 @@ func genC03(r *Rng) *C03Case {
 	}
 	for i := 0; i < ns; i++ {
 		st := C03Step{T: r.Intn(nt), B: r.Intn(ne)}
-		switch r.weighted([]int{6, 3, 2}) {
+		switch r.weighted([]int{6, 3, 2, 1}) {
 		case 0:
 			st.Kind, st.EP = "render", r.Intn(3)
 		case 1:
 			st.Kind, st.EP, st.K, st.Accept = "fault", pick(r, []int{EPFRender, EPParseAndFRender}), r.Intn(12), r.Intn(3)
-		default:
+		case 2:
 			st.Kind, st.EP = "parse", 3+r.Intn(3)
+		default: // a render during which the k-th harness callback (tag/block/filter) fails or panics
+			st.Kind, st.EP, st.K = "cbfault", r.Intn(NumEP), 1+r.Intn(6)
 		}
 		cs.Steps = append(cs.Steps, st)
 	}
@@ -304,6 +306,16 @@ func c03Find(c *Ctx, cs *C03Case, out *CaseOut, wantSig string) []c03Fail {
 		c03Pin()
 		var res Res
 		switch st.Kind {
+		case "cbfault":
+			cbCountdown = st.K
+			res = Run(ep, eng, tpls[st.T], srcs[st.T], envs[st.B], nil)
+			fired := cbCountdown == 0
+			cbCountdown = 0
+			if c != nil && fired {
+				c.count("fault:callback_failure", 1)
+			}
+			// whatever it returned (error or the callback's panic) is not judged; what
+			// follows must be unaffected
 		case "fault":
 			w := &FaultWriter{K: st.K, Accept: st.Accept, Sticky: true}
 			res = Run(ep, eng, tpls[st.T], srcs[st.T], envs[st.B], w)
